@@ -1,12 +1,81 @@
 /-
-  Drv/Front.lean — line-protocol requests for the grammar front end (C10, C11) and the
-  escape decoder (C12).  (placeholder)
+  Drv/Front.lean — line-protocol requests for the grammar front end (C10, C11); the escape
+  decoder's `U`/`USPEC` (C12) are chained in from Drv/Escapes.lean.
+
+  Texts are code points joined by `.`, the empty text is a lone `-`.
+    F  <text> [<builtin names joined by ','>]
+         Parser.from_grammar(text, optimizer=None):
+         `ok <rules>|<grammar doc>|<rule docs>`
+             <rules>       = Drv.encGrammar of the grammar rules in dictionary order (kind `g`);
+                             a reference to a built-in rule other than EOI is `ID <name> -`
+             <grammar doc> = the doc lines (each a text) joined by `,`; `~` if there is none
+             <rule docs>   = `<name>:<lines joined by ','>` joined by `;` for the rules that have
+                             doc lines; `~` if no rule has any
+         `err <message slug> <start of the error token>`      PestGrammarSyntaxError
+         `exc <PythonExceptionName>`                           any other exception
+         `oof`                                                 the model ran out of fuel
+    TK <text>   tokenize(text): `<KIND>:<start>:<value>` joined by blanks (`-` if none),
+                or `err <slug> <start>` / `exc <name>` / `oof`
+    GC <text> <index>   PestGrammarError._error_context(text, index):
+                `<line number> <column> <current line>` or `exc IndexError`
 -/
+import PestModel.Front.Scan
+import PestModel.Front.Parse
+import PestModel.Front.ErrorContext
+import PestModel.Drv.Core
 import PestModel.Drv.Escapes
+
+open Pest Pest.Front
 
 namespace Drv
 
+def fEncText (t : Text) : String :=
+  if t.isEmpty then "-" else ".".intercalate (t.map toString)
+
+def fDecText (s : String) : Option Text :=
+  if s == "-" then some [] else (s.splitOn ".").mapM (·.toNat?)
+
+def fEncLines (ls : List Text) : String :=
+  if ls.isEmpty then "~" else ",".intercalate (ls.map fEncText)
+
+def fEncLoaded (g : Loaded) : String :=
+  let rules : List Rule := g.rules.map fun r => { name := r.name, mod := r.mod, body := r.body, kind := .grammar }
+  let docs := (g.rules.filter (!·.doc.isEmpty)).map fun r => s!"{r.name}:{fEncLines r.doc}"
+  s!"ok {encGrammar rules}|{fEncLines g.doc}|{if docs.isEmpty then "~" else ";".intercalate docs}"
+
+def fLoad (text : String) (builtins : List String) : String :=
+  match fDecText text with
+  | none => "bad-args"
+  | some t =>
+    match load builtins t with
+    | .ok g => fEncLoaded g
+    | .error e => s!"err {e.kind.slug} {e.start}"
+    | .exc n => s!"exc {n}"
+    | .oof => "oof"
+
+def fTokens (text : String) : String :=
+  match fDecText text with
+  | none => "bad-args"
+  | some t =>
+    match scan t with
+    | .ok toks =>
+      if toks.isEmpty then "-"
+      else " ".intercalate (toks.map fun k => s!"{k.kind.name}:{k.start}:{fEncText k.value}")
+    | .err k st _ => s!"err {k.slug} {st}"
+    | .exc n => s!"exc {n}"
+    | .oof => "oof"
+
 def handleFront : List String → Option String
+  | ["F", text] => some (fLoad text [])
+  | ["F", text, builtins] => some (fLoad text (builtins.splitOn ","))
+  | ["TK", text] => some (fTokens text)
+  | ["GC", text, index] => some <|
+    match fDecText text, index.toNat? with
+    | some t, some i =>
+      match grammarErrorContext t i with
+      | some (line, col, cur) => s!"{line} {col} {fEncText cur}"
+      | none => "exc IndexError"
+    | _, _ => "bad-args"
   | toks => handleEscapes toks
 
 end Drv
